@@ -652,6 +652,13 @@ module N =
     | Lt -> true
     | _ -> false
 
+  (** val max : n -> n -> n **)
+
+  let max n0 n' =
+    match compare n0 n' with
+    | Gt -> n0
+    | _ -> n'
+
   (** val pow : n -> n -> n **)
 
   let pow n0 = function
@@ -4515,3 +4522,110 @@ let ir_run fuel p input0 =
       points = p.ir_points; latest = p.ir_last; inp = input0; outb =
       (rev p.ir_out); errb = (rev p.ir_err) } p.ir_start
   | None -> IBadState
+
+(** val dlen : n -> n **)
+
+let dlen n0 =
+  N.of_nat (length (dec_N n0))
+
+(** val usub : n -> n -> n option **)
+
+let usub a b0 =
+  if N.leb b0 a then Some (N.sub a b0) else None
+
+(** val spaces : n -> n list **)
+
+let spaces n0 =
+  repeat (Npos (XO (XO (XO (XO (XO XH)))))) (N.to_nat n0)
+
+(** val idx_width : (n * ucode) list -> n **)
+
+let idx_width es =
+  fold_left (fun m0 e -> N.max m0 (dlen (fst e))) es N0
+
+(** val loc_width : (n * ucode) list -> n **)
+
+let loc_width es =
+  fold_left (fun m0 e ->
+    N.max m0 (N.add (dlen (fst (snd e).loc)) (dlen (snd (snd e).loc)))) es N0
+
+(** val entry_tail : bool -> ucode -> n list option **)
+
+let entry_tail rawmode c =
+  if rawmode
+  then Some c.raw
+  else (match nth_error sINGLE (N.to_nat c.ty) with
+        | Some ch ->
+          Some
+            (app (ch :: [])
+              (app ((Npos (XI (XI (XI (XI (XI (XO XH))))))) :: [])
+                (app (dec_N c.hc)
+                  (app ((Npos (XI (XI (XI (XI (XI (XO XH))))))) :: [])
+                    (app (dec_N c.dc)
+                      (app ((Npos (XO (XO (XO (XO (XO XH)))))) :: [])
+                        (area_display c.ar)))))))
+        | None -> None)
+
+(** val listing_row :
+    bool -> n list -> n -> n -> (n * ucode) -> n list option **)
+
+let listing_row rawmode fname iw lw = function
+| (i, c) ->
+  let (l, k) = c.loc in
+  (match usub iw (dlen i) with
+   | Some p1 ->
+     (match usub lw (dlen l) with
+      | Some q0 ->
+        (match usub q0 (dlen k) with
+         | Some p2 ->
+           (match entry_tail rawmode c with
+            | Some tl0 ->
+              Some
+                (app (dec_N i)
+                  (app (spaces p1)
+                    (app ((Npos (XO (XO (XO (XO (XO XH)))))) :: ((Npos (XO
+                      (XO (XI (XI (XI (XI XH))))))) :: ((Npos (XO (XO (XO (XO
+                      (XO XH)))))) :: [])))
+                      (app fname
+                        (app ((Npos (XO (XI (XO (XI (XI XH)))))) :: [])
+                          (app (dec_N l)
+                            (app ((Npos (XO (XI (XO (XI (XI XH)))))) :: [])
+                              (app (dec_N k)
+                                (app (spaces p2)
+                                  (app ((Npos (XO (XO (XO (XO (XO
+                                    XH)))))) :: ((Npos (XO (XO (XO (XO (XO
+                                    XH)))))) :: []))
+                                    (app tl0 ((Npos (XO (XI (XO XH)))) :: []))))))))))))
+            | None -> None)
+         | None -> None)
+      | None -> None)
+   | None -> None)
+
+(** val listing_rows :
+    bool -> n list -> n -> n -> (n * ucode) list -> n list option **)
+
+let rec listing_rows rawmode fname iw lw = function
+| [] -> Some []
+| e :: r ->
+  (match listing_row rawmode fname iw lw e with
+   | Some a ->
+     (match listing_rows rawmode fname iw lw r with
+      | Some b0 -> Some (app a b0)
+      | None -> None)
+   | None -> None)
+
+(** val listing_text : bool -> n list -> (n * ucode) list -> n list option **)
+
+let listing_text rawmode fname es =
+  listing_rows rawmode fname (idx_width es) (loc_width es) es
+
+(** val enumerate_from : n -> 'a1 list -> (n * 'a1) list **)
+
+let rec enumerate_from i = function
+| [] -> []
+| x :: r -> (i, x) :: (enumerate_from (N.add i (Npos XH)) r)
+
+(** val check_listing : n list -> n list -> n list option **)
+
+let check_listing fname text =
+  listing_text false fname (enumerate_from N0 (parse text))
